@@ -72,6 +72,11 @@ def unwritten_asm():
     after = [A.ref('BR', 'go'), A.lab('sp'), A.data(150000), A.lab('go', 'PROC'), A.ref('LDAC', 'endw'), A.imm('LDAI', 1), A.ref('LDBC', 'endw'), A.imm('LDBI', 2), A.opr('ADD'),
              A.ref('LDBC', 'endw'), A.imm('LDBI', 3), A.opr('ADD'), A.ref('LDBC', 'endw'), A.imm('LDBI', 4), A.opr('ADD')] + exit_with_a + [A.lab('helper', 'FUNC'), A.opr('BRB'), A.lab('endw'), A.data(0)]
     out.append(('unwasm:afterimage', after))
+    # a READ whose destination (sp + 1) is the very word the SVC was fetched from: the bytes behind the SVC are replaced by the byte read
+    # (LDBC 7 becomes LDAM 0) before they are executed - with and without -t
+    #   word 0: BR 7      word 1: sp = 1      word 2: LDAC 2; SVC; LDBC 7; LDAM 0      word 3: 0 (stream; four LDAM 0)
+    #   word 4: LDAC 0; ADD; LDBM 1; STAI 2   word 5: LDAC 0; SVC
+    out.append(('selfmod:readcode', [A.data(0x97), A.data(1), A.data(0x0047D332), A.data(0), A.data(0x8211D130 - 2 ** 32), A.data(0xD330)]))
     return [(i, p, asmlib.src_of(p)) for i, p in out]
 
 
@@ -103,7 +108,10 @@ def run(tier, replay=None):
         rng = vlib.rng(12)
         base = vlib.seed() * 100000 + 20000
         nrand, nasm = (120, 60) if tier == "quick" else (2500, 800)
-        xprogs = unwritten_x() + [(i, reroute(P)) for i, P in partial_readers()] + [(i, reroute(P)) for i, P in xlib.template_programs(rng) + [('rand%d' % (base + s), xlib.random_program(base + s)) for s in range(nrand)]]
+        manyp = {'p%d' % k: xlib.proc(False, [], [], xlib.skip()) for k in range(160)}
+        manyp['main'] = xlib.proc(False, [], [], xlib.seq([xlib.callst(xlib.call('p%d' % k, [])) for k in (0, 1, 77, 158, 159)] + [xlib.putc(xlib.num(75), 512), xlib.exit_(xlib.num(3))]))
+        many = xlib.program([], {}, manyp, {}, {}, ['main'] + ['p%d' % k for k in range(160)])
+        xprogs = [('many:160', many)] + unwritten_x() + [(i, reroute(P)) for i, P in partial_readers()] + [(i, reroute(P)) for i, P in xlib.template_programs(rng) + [('rand%d' % (base + s), xlib.random_program(base + s)) for s in range(nrand)]]
         xcases = xlib.make_cases(xprogs, rng)
         for c in xcases:
             if c['id'].startswith('rdpart:'):
